@@ -147,5 +147,12 @@ func init() {
 		m.sch.race.on = true
 		return nil
 	}
+	harnessAPI["vfSingleP"] = func(m *Machine, args []Value) Value {
+		f := m.Prog.Func("vfNoop")
+		if f == nil {
+			m.unsupported("vfNoop not defined by the harness")
+		}
+		return f
+	}
 	harnessAPI["vfSymbolic"] = func(m *Machine, args []Value) Value { return m.C.True }
 }
